@@ -154,6 +154,14 @@ def run(repo):
                     kt = ntext(_xl_b(fi.node, keep))
                     is_bound = any(kt == '%s.%s' % (root, f_) or kt.endswith('.%s' % f_) and kt.startswith(root + '.')
                                    for f_ in ('lb', 'ub')) or (isinstance(keep, ast.Name) and keep.id in bound_names)
+                    # np.where(lb < 0, 0, lb) is max(lb, 0): a mask that compares the bound itself intersects
+                    mask_reads_bound = any(
+                        isinstance(c_, ast.Compare) and any(ntext(_xl_b(fi.node, x_)) == kt or
+                                                            (isinstance(x_, ast.Name) and x_.id in bound_names)
+                                                            for x_ in [c_.left] + c_.comparators)
+                        for c_ in ast.walk(_xl_b(fi.node, n.args[0])))
+                    if mask_reads_bound:
+                        continue
                     if is_bound and (isinstance(other, ast.Constant) or
                                      (isinstance(other, ast.UnaryOp) and isinstance(other.operand, ast.Constant))) \
                             and ntext(other) not in ('np.inf', '-np.inf'):
